@@ -46,6 +46,7 @@ func (e *Engine) newCtx(fn *ssa.Function, opts *fnOpts, st *fnState) *FnCtx {
 		usedSpecFuncs: map[string]bool{}, readSnaps: map[string]heapState{}, boundFuncs: map[ssa.Value]*ssa.Function{}, state: st}
 	if st != nil {
 		c.knownHeaps = st.knownHeaps
+		c.knownLocals = st.knownLocals
 	}
 	if opts != nil && opts.spec != nil {
 		c.con, c.key = opts.spec.con, opts.spec.key
@@ -327,9 +328,12 @@ func (e *Engine) verifyFunc2(fn *ssa.Function, opts *fnOpts, cfg *solverCfg, sol
 		return res
 	}
 	st.knownHeaps = map[string]string{}
+	st.knownLocals = map[string]string{}
 	for h, s := range c.heapSort {
 		if !c.isLocalHeap(h) {
 			st.knownHeaps[h] = s
+		} else {
+			st.knownLocals[h] = s
 		}
 	}
 	for round := 0; ; round++ {
